@@ -210,12 +210,15 @@ Lemma vle_set_st lv lv' st : vle lv lv' -> vle (set_st lv st) (set_st lv' st).
 Proof. intros [H E]. unfold set_st. rewrite E. split; [exact H|reflexivity]. Qed.
 
 Lemma D_emit_gen {R} t es (k : prog R) lv lv1 :
-  (forall g a tr, DInv keys g a tr -> view a t = lv ->
-     exists atr', DInv keys g (mk_a a t (dpub a) (dever a) (ddead a) (dmax a) lv1 atr') (tr ++ Conc.tag t es)) ->
+  (forall g a tr, DInvA keys g a tr -> view a t = lv ->
+     exists atr', DInvA keys g (mk_a a t (dpub a) (dever a) (ddead a) (dmax a) lv1 atr') (tr ++ Conc.tag t es)) ->
   DSAFE t k lv1 -> DSAFE t (Emit es k) lv.
 Proof.
-  intros H Hk. unfold EllenDelInv.DSAFE. cbn [Conc.safe]. intros g a tr Hi Hv. destruct (H g a tr Hi Hv) as (atr' & H1).
-  exists (mk_a a t (dpub a) (dever a) (ddead a) (dmax a) lv1 atr'). split; [exact H1|]. split; [apply frame_mk|]. now rewrite view_mk_same.
+  intros H Hk. unfold EllenDelInv.DSAFE. cbn [Conc.safe]. intros g a tr [Hex|Hi] Hv.
+  - exists (mk_a a t (dpub a) (dever a) (ddead a) (dmax a) deadv (datr a)). split; [left; now apply exhausted_app|]. split; [apply frame_mk|].
+    rewrite view_mk_same. apply safe_dead.
+  - destruct (H g a tr Hi Hv) as (atr' & H1).
+    exists (mk_a a t (dpub a) (dever a) (ddead a) (dmax a) lv1 atr'). split; [right; exact H1|]. split; [apply frame_mk|]. now rewrite view_mk_same.
 Qed.
 
 Lemma DS_set_st g a t lv st atr' : DS g a -> view a t = lv -> DS g (mk_a a t (dpub a) (dever a) (ddead a) (dmax a) (set_st lv st) atr').
@@ -287,13 +290,12 @@ Proof.
     rewrite J1. cbv zeta. rewrite Hrd. symmetry. exact J2.
 Qed.
 
-Lemma Sm_out_of_fuel {R} t s (k : TL -> prog R) lv :
-  (forall s', DSm t (k s') (set_st lv (@Idle SetSpec))) -> DSm t (out_of_fuel s k) lv.
+(** a thread that runs out of the model's loop fuel: nothing is claimed afterwards *)
+Lemma Sm_out_of_fuel {R} t s (k : TL -> prog R) lv : DSm t (out_of_fuel s k) lv.
 Proof.
-  intros Hk lv' Hle. unfold out_of_fuel.
-  apply D_emit_gen with (lv1 := set_st lv' (@Idle SetSpec)); [|apply Hk; now apply vle_set_st].
-  intros g a tr [Hs Hil] Hv. exists (datr a). split; [now apply DS_set_st|right].
-  exists t. apply in_or_app. right. now left.
+  intros lv' Hle. unfold out_of_fuel, EllenDelInv.DSAFE. cbn [Conc.safe]. intros g a tr _ Hv.
+  exists (mk_a a t (dpub a) (dever a) (ddead a) (dmax a) deadv (datr a)). split; [|split; [apply frame_mk|rewrite view_mk_same; apply safe_dead]].
+  left. exists t. apply in_or_app. right. now left.
 Qed.
 
 End Ops.
